@@ -160,7 +160,7 @@ class C06(core.Check):
         'label-not-first-on-its-line/global', 'label-not-first-on-its-line/local', 'label-not-first-on-its-line/file',
         'reference-inside:indirect-numeric', 'reference-inside:deferred-numeric', 'reference-inside:indexed-register',
         'reference-inside:indirect-indexed-register', 'reference-inside:indirect-register-offset',
-        'local-inside-operand-form-with-same-named-global', 'no-image-asked-for', 'illegal:undefined/name-that-nearly-reads-as-a-number', 'predefined-data-name-in-a-constant', 'predefined-data-name-in-an-origin', 'predefined-name-given-twice', 'predefined-name-given-once',
+        'local-inside-operand-form-with-same-named-global', 'no-image-asked-for', 'illegal:undefined/name-that-nearly-reads-as-a-number', 'predefined-data-name-in-a-constant', 'predefined-data-name-in-an-origin', 'predefined-name-given-twice', 'predefined-name-given-once', 'predefined-name-is-a-register-name',
         'predefined-name:constant-twice-same-value', 'predefined-name:constant-and-data', 'predefined-name:data-twice']}
 
     def build(self, rng, illegal, mute_refs=None, zero_refs=None, join_p=0.15, via_p=0.25, pre_p=0.35):
@@ -576,6 +576,7 @@ class C06(core.Check):
     def cases(self, tier, seed):
         yield from self.shadow_cases()
         yield from self.predefined_twice_cases()
+        yield from self.predefined_register_name_cases()
         n_pre = 420
         n = 500 if tier == 'quick' else 9000
         made = 0
@@ -627,6 +628,23 @@ class C06(core.Check):
                            'meta': {'kind': kind, 'why': 'predefined name ' + vn + ', ' + sn, 'image': img if legal else None,
                                     'illegal': 'predefined-name-twice/' + (vn if not vn.startswith('once') else sn)},
                            'tags': sorted({'expect:' + kind, 'files:1', 'predefined-name:' + vn, 'predefined-name-given-twice' if not vn.startswith('once') else 'predefined-name-given-once'})}
+
+    def predefined_register_name_cases(self):
+        """a name given by the configuration's predefined section that is also a register name is no usable label: a reference
+        to it from a data or fill expression is refused like a reference to any register"""
+        for reg in ('sp', 'a', 'SPQ', 'Rx'):
+            for sect in ('constants', 'data'):
+                isa = make_isa([])
+                pre = {'constants': [{'name': reg, 'value': 9}]} if sect == 'constants' else {'data': [{'name': reg, 'address': 0x600, 'value': 1, 'size': 2}]}
+                isa.setdefault('predefined', {}).update(pre)
+                fn, text = isamod.render_isa(isa, 'json')
+                for sn, src in (('byte', f'.byte {reg}'), ('2byte', f'.2byte {reg}'), ('fill', f'.fill 2, {reg}+1'), ('expr', f'.byte ({reg} + 1) & 255'),
+                                ('other-case', f'.byte {reg.swapcase()}'), ('constant', f'k_r = {reg}\n.byte k_r')):
+                    yield {'runs': [{'files': {fn: text, 'p.asm': src + '\n'}, 'argv': ['compile', '-c', fn, 'p.asm', '-o', 'out.bin'],
+                                     'probes': ['steps', 'labels'], 'step_limit': 600000}],
+                           'meta': {'kind': 'REJECT', 'why': f'predefined {sect} name {reg} is a register name ({sn})', 'image': None,
+                                    'illegal': 'predefined-name-is-a-register/' + sect},
+                           'tags': sorted({'expect:REJECT', 'files:1', 'predefined-name-is-a-register-name'})}
 
     def shadow_cases(self):
         """a local name inside an operand form, with a global of the same spelling minus the period: the local one is meant
